@@ -52,9 +52,12 @@ def make_iso(rp, rl, rm, tunit, T, ads_props, mat_props, tag=''):
     import pygaps
     # NB: PointIsotherm(adsorbate=<Adsorbate object>) raises AttributeError in the pinned tree (`None in [material,
     # adsorbate, temperature]` calls Adsorbate.__eq__(None)); adsorbates are therefore registered and passed by name
-    key = 'verif_ads_' + '_'.join(sorted(ads_props))
-    if key not in _ADS:
-        _ADS[key] = pygaps.Adsorbate(key, store=True, **ads_props)
+    if isinstance(ads_props, str):
+        key = ads_props          # a shipped adsorbate with a thermodynamic backend (CoolProp): temperature dependent
+    else:
+        key = 'verif_ads_' + '_'.join(sorted(ads_props))
+        if key not in _ADS:
+            _ADS[key] = pygaps.Adsorbate(key, store=True, **ads_props)
     a = key
     m = pygaps.Material('verif_mat' + tag, **mat_props)
     df = pd.DataFrame({'pressure': P0, 'loading': L0, 'enthalpy': [5.0, 4.5, 4.0, 3.5, 3.0, 3.1, 3.3], 'note': list('abcdefg')})
@@ -66,9 +69,34 @@ def make_iso(rp, rl, rm, tunit, T, ads_props, mat_props, tag=''):
     return iso
 
 
-def coq_iso(rp, rl, rm, tunit, T, ads_props, mat_props):
-    f = lambda d, n: ('(Some %s)' % qlit(d[n])) if n in d else 'None'
-    ads = '(mkAds QNum %s %s %s %s %s %s)' % tuple(f(ads_props, n) for n in ('saturation_pressure', 'molar_mass', 'liquid_density', 'gas_density', 'liquid_molar_density', 'gas_molar_density'))
+def ads_table(ads, temps):
+    """the adsorbate as the model sees it: each temperature-dependent property as a finite table
+    temperature -> value (exact rational of the float the implementation returns) | unavailable"""
+    import pygaps
+    a = pygaps.Adsorbate.find(ads) if isinstance(ads, str) else ads
+
+    def get(fn, *args):
+        try:
+            v = fn(*args)
+            return None if v is None else float(v)
+        except Exception:  # noqa
+            return None
+
+    def table(fn):
+        rows = [(t, get(fn, t)) for t in temps]
+        body = 'None'
+        for t, v in reversed(rows):
+            body = '(if close_q 1 1000000000000 x %s then %s else %s)' % (flit(t), 'None' if v is None else '(Some %s)' % flit(v), body)
+        return '(fun t : option Q => match t with Some x => %s | None => None end)' % body
+    M = get(a.molar_mass)
+    return '(mkAds QNum %s %s %s %s %s %s)' % (table(a.saturation_pressure), 'None' if M is None else '(Some %s)' % flit(M),
+                                             table(a.liquid_density), table(a.gas_density), table(a.liquid_molar_density), table(a.gas_molar_density))
+
+
+def coq_iso(rp, rl, rm, tunit, T, ads_name, mat_props):
+    f = lambda d, n: ('(Some %s)' % flit(d[n])) if n in d else 'None'
+    TK = T if tunit == 'K' else T + 273.15
+    ads = ads_table(ads_name, sorted({float(T), float(TK)}))
     mat = '(mkMat QNum %s %s)' % (f(mat_props, 'density'), f(mat_props, 'molar_mass'))
     ql = lambda xs: '[' + '; '.join(flit(x) for x in xs) + ']'
     pu = rp[1] if rp[0] == 'absolute' else None   # constructor: relative -> unit None
@@ -120,6 +148,17 @@ def parse_rep(labels):
     return None
 
 
+def names_full_rep(c):
+    """the call names a complete valid target representation explicitly (so the theorem history_direct says it succeeds)"""
+    k, a = c
+    if k == 'P': return (a[0], a[1]) in PREPS
+    if k == 'L': return (a[0], a[1]) in LREPS
+    if k == 'M': return (a[0], a[1]) in MREPS
+    if k == 'T': return a[0] in ('K', '°C')
+    groups = [(a[0:2], PREPS), (a[2:4], LREPS), (a[4:6], MREPS)]
+    return all((g == (None, None)) or (tuple(g) in reps) for g, reps in groups)
+
+
 def constructor_accepts(snap):
     import pygaps
     pm, pu, lb, lu, mb, mu, tu = snap['labels']
@@ -159,12 +198,13 @@ def gen_histories(tier, seed):
     def init(rp=None, rl=None, rm=None, tu=None, ads='full', mat='full'):
         rp = rp or rnd.choice(PREPS); rl = rl or rnd.choice(LREPS); rm = rm or rnd.choice(MREPS)
         tu = tu or rnd.choice(['K', '°C'])
-        T = 77.355 if tu == 'K' else -195.795
+        TK = 573.15 if ads == 'water' else 77.355      # water at 300 degC: the raw number 300 is ALSO a valid temperature in K
+        T = TK if tu == 'K' else round(TK - 273.15, 3)
         return (rp, rl, rm, tu, T, ads, mat)
     # (i) single steps, exhaustive per group (sampled for loading/material in quick)
     for rp in PREPS:
         for m, u in itertools.product(modes + [None, 'bogus'], c01.PUNITS + [None, 'bogus']):
-            H.append((init(rp=rp, rl=('molar', 'mmol'), rm=('mass', 'g'), tu='K'), [('P', (m, u))]))
+            H.append((init(rp=rp, rl=('molar', 'mmol'), rm=('mass', 'g'), tu=rnd.choice(['K', '°C']), ads=rnd.choice(['full', 'water'])), [('P', (m, u))]))
     ls = [(rl, b, u, rm) for rl in LREPS for b in lb_all + [None, 'bogus'] for u in lunits + [None, 'bogus']
           for rm in [('mass', 'g'), ('volume', 'cm3'), ('molar', 'mmol')]]
     ms = [(rm, rl, b, u) for rm in MREPS for rl in [('molar', 'mmol'), ('fraction', None), ('percent', None), ('mass', 'mg')]
@@ -172,9 +212,9 @@ def gen_histories(tier, seed):
     if tier == 'quick':
         ls = rnd.sample(ls, 1200); ms = rnd.sample(ms, 1200)
     for rl, b, u, rm in ls:
-        H.append((init(rp=('absolute', 'bar'), rl=rl, rm=rm, tu='K'), [('L', (b, u))]))
+        H.append((init(rp=('absolute', 'bar'), rl=rl, rm=rm, tu=rnd.choice(['K', '°C']), ads=rnd.choice(['full', 'water'])), [('L', (b, u))]))
     for rm, rl, b, u in ms:
-        H.append((init(rp=('absolute', 'bar'), rl=rl, rm=rm, tu='K'), [('M', (b, u))]))
+        H.append((init(rp=('absolute', 'bar'), rl=rl, rm=rm, tu=rnd.choice(['K', '°C']), ads=rnd.choice(['full', 'water'])), [('M', (b, u))]))
     for tu0 in ('K', '°C'):
         for u in ['K', '°C', 'C', 'celsius', None, 'bogus', '']:
             H.append((init(tu=tu0), [('T', (u,))]))
@@ -206,7 +246,7 @@ def gen_histories(tier, seed):
     nh = 2500 if tier == 'thorough' else 250
     maxlen = 30 if tier == 'thorough' else 10
     for i in range(nh):
-        ads = 'nodens' if rnd.random() < 0.1 else 'full'
+        ads = rnd.choice(['nodens', 'full', 'full', 'water', 'water', 'nitrogen', 'water', 'nitrogen', 'full', 'water'])
         H.append((init(ads=ads), [rcall() for _ in range(rnd.randint(2, maxlen))]))
     return H
 
@@ -240,7 +280,7 @@ def run(rep, tier, seed):
 
 def explore(rep, tier, seed):
     H = gen_histories(tier, seed)
-    ADSK = {'full': ADS_FULL, 'nodens': ADS_NODENS}
+    ADSK = {'full': ADS_FULL, 'nodens': ADS_NODENS, 'water': 'water', 'nitrogen': 'nitrogen'}
     MATK = {'full': MAT_FULL}
     # ---- implementation
     impl = []
@@ -257,9 +297,9 @@ def explore(rep, tier, seed):
     # ---- model
     def expected(post):
         return '[' + '; '.join('((%d)%%Z, (%d)%%Z)' % fme(x) for x in [post['T']] + post['p'] + post['l']) + ']'
-    terms = ['(run_hist_cmp 1 1000000000 %s [%s])' % (coq_iso(*init[:5], ADSK[init[5]], MATK[init[6]]),
+    terms = ['(run_hist_cmp 1 1000000000 %s [%s])' % (coq_iso(*init[:5], iso0.adsorbate, MATK[init[6]]),
                                                       '; '.join('(%s, %s)' % (coq_call(c), expected(st[2])) for c, st in zip(calls, steps)))
-             for (init, calls), (s0, steps, iso) in zip(H, impl)]
+             for (init, calls), (s0, steps, iso0) in zip(H, impl)]
     model = None
     try:
         model = vlib.run_coq_cases('c02m', HEADER, 'fun x : list (list Z) => x', terms, per_file=200, nested=True)
@@ -302,6 +342,8 @@ def explore(rep, tier, seed):
                 fail('untouched-parts-changed', 'branch marks / extra columns / metadata / order changed by %r' % (c,))
             if known_bad:
                 continue   # the object was already corrupted by a recorded finding earlier in this history
+            if oc != 'Ok' and init[5] != 'nodens' and parse_rep(pre['labels']) and names_full_rep(c):
+                fail('wrongly-refused', 'call %r naming a valid representation was refused (%s) on a valid isotherm %r' % (c, oc, pre['labels'])); known_bad = True
             if oc != 'Ok':
                 changed = (post['labels'], post['T'], post['p'], post['l']) != (pre['labels'], pre['T'], pre['p'], pre['l'])
                 if c[0] != 'A' and changed:
@@ -327,7 +369,7 @@ def explore(rep, tier, seed):
                 fail('labels-invalid', 'after %r the labels %r are not accepted by the constructor' % (c, post['labels'])); known_bad = True
                 continue
             rep1 = parse_rep(post['labels'])
-            if rep0 and rep1 and init[5] == 'full':
+            if rep0 and rep1 and init[5] != 'nodens':
                 ads, mat = iso.adsorbate, iso.material
                 try:
                     p, l = direct(s0, rep0, rep1, ads, mat, TK0)
@@ -362,7 +404,7 @@ def replay(d):
     logging.disable(logging.CRITICAL)
     r = d['replay']
     init = r['init']
-    ADSK = {'full': ADS_FULL, 'nodens': ADS_NODENS}
+    ADSK = {'full': ADS_FULL, 'nodens': ADS_NODENS, 'water': 'water', 'nitrogen': 'nitrogen'}
     iso = make_iso(tuple(init[0]), tuple(init[1]), tuple(init[2]), init[3], init[4], ADSK[init[5]], MAT_FULL, tag='r')
     print('initial', snapshot(iso)['labels'])
     for c in r['calls']:
